@@ -208,7 +208,7 @@ func (r *Run) Violate(key, what string, replay any) {
 			return
 		}
 	}
-	if len(r.violations) >= 25 {
+	if len(r.violations) >= maxViolations() {
 		r.counters["violations_not_written"]++
 		return
 	}
@@ -226,6 +226,15 @@ func (r *Run) Violate(key, what string, replay any) {
 	r.violations = append(r.violations, v)
 	fmt.Printf("VIOLATION property=%s replay=%s\n", r.Prop, v.Path)
 	fmt.Printf("  what: %s\n", trunc(what, 600))
+}
+
+func maxViolations() int {
+	if os.Getenv("VERIF_MAXVIOL") != "" {
+		var n int
+		fmt.Sscan(os.Getenv("VERIF_MAXVIOL"), &n)
+		return n
+	}
+	return 25
 }
 
 func trunc(s string, n int) string {
